@@ -112,7 +112,12 @@ func c01WithTime(m map[string]string, us int64) map[string]string {
 
 // c01MatchRows matches model points against the rows read back for one
 // measurement. Returns "" when the multisets agree.
-func c01MatchRows(points []*lpgen.Point, got []map[string]string, precision string, before, after time.Time) (string, *lpgen.Point) {
+type c01PP struct {
+	p    *lpgen.Point
+	prec string // precision of the request the point was sent in
+}
+
+func c01MatchRows(pps []c01PP, got []map[string]string, before, after time.Time) (string, *lpgen.Point) {
 	used := make([]bool, len(got))
 	full := make([]string, len(got))
 	noTime := make([]string, len(got))
@@ -136,7 +141,8 @@ func c01MatchRows(points []*lpgen.Point, got []map[string]string, precision stri
 		return -1
 	}
 	var wild []*lpgen.Point
-	for _, p := range points {
+	for _, pp := range pps {
+		p, precision := pp.p, pp.prec
 		row, bad := c01ModelRow(p)
 		if bad != "" {
 			return bad, p
@@ -198,11 +204,8 @@ func c01RootCauseAPI(p *lpgen.Point) string {
 	}
 }
 
-func (e *c01Env) runCase(t *rapid.T, b *lpgen.Batch, endpoint int) {
-	dbname := fmt.Sprintf("c01db%d", e.seq.Add(1))
-	dbdir := filepath.Join(e.root, dbname)
-	defer os.RemoveAll(dbdir)
-
+// post sends one request body to one of the three endpoints and returns the status.
+func (e *c01Env) post(t *rapid.T, b *lpgen.Batch, dbname string, endpoint int) (int, string) {
 	q := ""
 	if b.Precision != "" {
 		q = "precision=" + b.Precision
@@ -226,40 +229,68 @@ func (e *c01Env) runCase(t *rapid.T, b *lpgen.Batch, endpoint int) {
 	if hdr != "" {
 		req.Header.Set("x-arc-database", hdr)
 	}
-	before := time.Now()
 	resp, err := e.app.Test(req, -1)
 	if err != nil {
 		t.Fatalf("HARNESS app.Test: %v", err)
 	}
 	resp.Body.Close()
-	after := time.Now()
-	verifkit.Eval()
-	verifkit.Class(fmt.Sprintf("L2-endpoint-%d", endpoint))
-	verifkit.Class(fmt.Sprintf("L2-status-%d", resp.StatusCode))
-	verifkit.Class("L2-precision:" + b.Precision)
-	for i := range b.Points {
-		for _, f := range b.Points[i].Feats {
-			verifkit.Class("L2-feat:" + f)
+	return resp.StatusCode, url
+}
+
+// runCase posts a SEQUENCE of requests for the same database (they are buffered
+// together), flushes once, and compares the union of the model rows with storage.
+func (e *c01Env) runCase(t *rapid.T, seq []*lpgen.Batch, endpoints []int) {
+	dbname := fmt.Sprintf("c01db%d", e.seq.Add(1))
+	dbdir := filepath.Join(e.root, dbname)
+	defer os.RemoveAll(dbdir)
+
+	bodies := make([]string, len(seq))
+	urls := make([]string, len(seq))
+	allAccepted := true
+	before := time.Now()
+	for i, b := range seq {
+		bodies[i] = b.Body
+		var status int
+		status, urls[i] = e.post(t, b, dbname, endpoints[i])
+		verifkit.Class(fmt.Sprintf("L2-endpoint-%d", endpoints[i]))
+		verifkit.Class(fmt.Sprintf("L2-status-%d", status))
+		verifkit.Class("L2-precision:" + b.Precision)
+		for j := range b.Points {
+			for _, f := range b.Points[j].Feats {
+				verifkit.Class("L2-feat:" + f)
+			}
+		}
+		if status != 204 {
+			allAccepted = false
 		}
 	}
+	after := time.Now()
+	verifkit.Eval()
+	verifkit.Class(fmt.Sprintf("L2-requests-per-flush-%d", len(seq)))
 	ferr := e.buf.FlushAll(context.Background())
-	if resp.StatusCode != 204 {
-		// not an accepted request: nothing is claimed about it
+	if !allAccepted {
+		// a rejected request may have been stored partially (C04's business);
+		// nothing is claimed about a sequence that was not accepted as a whole
+		verifkit.Class("L2-sequence-with-rejection")
 		return
 	}
 	if ferr != nil {
-		t.Fatalf("VERIF-FAIL class=C01/flush-error request accepted (204) but FlushAll failed: %v; body %q", ferr, b.Body)
+		t.Fatalf("VERIF-FAIL class=C01/flush-error requests accepted (204) but FlushAll failed: %v; bodies %q", ferr, bodies)
 	}
-	byMeas := map[string][]*lpgen.Point{}
-	for i := range b.Points {
-		p := &b.Points[i]
-		byMeas[p.Meas] = append(byMeas[p.Meas], p)
+	byMeas := map[string][]c01PP{}
+	npoints := 0
+	for _, b := range seq {
+		for i := range b.Points {
+			p := &b.Points[i]
+			byMeas[p.Meas] = append(byMeas[p.Meas], c01PP{p, b.Precision})
+			npoints++
+		}
 	}
-	// every stored measurement directory must be one the request names
+	// every stored measurement directory must be one the requests name
 	ents, _ := os.ReadDir(dbdir)
 	for _, en := range ents {
 		if _, ok := byMeas[en.Name()]; !ok {
-			t.Fatalf("VERIF-FAIL class=C01/other data stored under measurement %q which no point names; body %q", en.Name(), b.Body)
+			t.Fatalf("VERIF-FAIL class=C01/other data stored under measurement %q which no point names; bodies %q", en.Name(), bodies)
 		}
 	}
 	names := make([]string, 0, len(byMeas))
@@ -272,27 +303,34 @@ func (e *c01Env) runCase(t *rapid.T, b *lpgen.Batch, endpoint int) {
 		files := duck.FindParquet(filepath.Join(dbdir, m))
 		tbl, err := duck.ReadParquet(e.db, files)
 		if err != nil {
-			t.Fatalf("VERIF-FAIL class=C01/unreadable-parquet measurement %q files %v: %v; body %q", m, files, err, b.Body)
+			t.Fatalf("VERIF-FAIL class=C01/unreadable-parquet measurement %q files %v: %v; bodies %q", m, files, err, bodies)
 		}
-		if d, p := c01MatchRows(byMeas[m], tbl.RowMaps(), b.Precision, before, after); d != "" {
+		if d, p := c01MatchRows(byMeas[m], tbl.RowMaps(), before, after); d != "" {
 			line := ""
 			if p != nil {
 				line = p.Line
 			}
-			t.Fatalf("VERIF-FAIL class=C01/%s measurement %q precision %q line %q: %s\nbody %q", c01RootCauseAPI(p), m, b.Precision, line, d, b.Body)
+			cause := c01RootCauseAPI(p)
+			if cause == "other" && len(seq) > 1 {
+				cause = "other-multi-request-flush"
+			}
+			t.Fatalf("VERIF-FAIL class=C01/%s measurement %q line %q (%d requests buffered before the flush): %s\nbodies %q", cause, m, line, len(seq), d, bodies)
 		}
-		for _, p := range byMeas[m] {
-			if p.NonTrivial() {
+		for _, pp := range byMeas[m] {
+			if pp.p.NonTrivial() {
 				nontrivial = true
 			}
 		}
 	}
-	verifkit.ClassN("L2-points-stored-and-compared", len(b.Points))
+	verifkit.ClassN("L2-points-stored-and-compared", npoints)
+	if len(seq) > 1 {
+		verifkit.Class("L2-multi-request-flushes-compared")
+	}
 	if nontrivial {
 		verifkit.Class("L2-nontrivial-batches")
-		verifkit.NonTrivial("L2:" + b.Precision + ":" + b.Body)
-		if verifkit.SampleCount() < 3 && len(b.Points) <= 3 {
-			verifkit.Sample(map[string]any{"layer": "L2", "url": url, "body": b.Body, "points": b.Points})
+		verifkit.NonTrivial("L2:" + strings.Join(urls, "|") + ":" + strings.Join(bodies, "\x00"))
+		if verifkit.SampleCount() < 3 && npoints <= 4 {
+			verifkit.Sample(map[string]any{"layer": "L2", "urls": urls, "bodies": bodies})
 		}
 	}
 }
@@ -311,7 +349,7 @@ func TestVerifC01_EndToEnd(t *testing.T) {
 	e := newC01Env(t)
 	rapid.Check(t, func(t *rapid.T) {
 		o := c01apiOpts()
-		b := lpgen.GenBatch(t, o)
+		seq := lpgen.GenSequence(t, o)
 		if o.NoEscapedEqKey {
 			verifkit.CountExcluded("C01-escaped-eq-in-key")
 		}
@@ -321,6 +359,10 @@ func TestVerifC01_EndToEnd(t *testing.T) {
 		if o.NoLenientBackslash {
 			verifkit.CountExcluded("C01-string-backslash-delim")
 		}
-		e.runCase(t, b, rapid.IntRange(0, 2).Draw(t, "endpoint"))
+		eps := make([]int, len(seq))
+		for i := range eps {
+			eps[i] = rapid.IntRange(0, 2).Draw(t, "endpoint")
+		}
+		e.runCase(t, seq, eps)
 	})
 }
